@@ -291,13 +291,14 @@ def handle : Handler := fun input impl =>
     let allowExt := o.canc || (n > 1 && o.res != "ok")
     let preds := (List.range n).map fun i =>
       match pl.pools[i]?, o.pools[i]? with
-      | some p, some po => replayPool { p with closable := closableOf p po } po allowExt (pl.cancel.startsWith "pre")
+      | some p, some po => replayPool { p with closable := closableOf p po, warm := warmOf p po } po allowExt (pl.cancel.startsWith "pre")
       | _, _ => .error "missing-pool"
     match preds.mapM id with
     | .error e => (e, v)
     | .ok ps =>
       -- the engine loop (`Engine.Run`): results it consumed, in order
-      let engBad := o.eng.filterMap fun t =>
+      let engBad := o.eng.filterMap fun t0 =>
+        let t := if t0.endsWith "!" then (t0.dropEnd 1).toString else t0
         match t.splitOn "." with
         | pk :: cls =>
           match (pk.drop 1).toNat? >>= (ps[·]?) with
@@ -313,7 +314,7 @@ def handle : Handler := fun input impl =>
         match t.splitOn "." with
         | pk :: _ =>
           match (pk.drop 1).toNat? with
-          | some k => (ps[k]? >>= (·.res)).map fun r => EEv.pool k r (r == .ctx || (o.canc && o.res == "ctx"))
+          | some k => (ps[k]? >>= (·.res)).map fun r => EEv.pool k r (r == .ctx || t.endsWith "!" || (o.canc && o.res == "ctx"))
           | none => none
         | _ => none
       let evs := if o.engc == "1" then evs ++ [EEv.ctxDone] else evs
@@ -333,7 +334,7 @@ def handle : Handler := fun input impl =>
         let real := match pl.pools[i]?, o.pools[i]? with
           | some p, some po =>
             if p.real then
-              s!" p{i}.gcl={if po.gcl.getD false then 1 else 0} p{i}.icl={if po.icl.getD false then 1 else 0} p{i}.srvopen=0"
+              s!" p{i}.gcl={if po.gcl.getD false then 1 else 0} p{i}.gwu={if po.gwu.getD false then 1 else 0} p{i}.icl={if po.icl.getD false then 1 else 0} p{i}.srvopen=0"
             else ""
           | _, _ => ""
         s!" p{i}.main={listStr pp.main} p{i}.aw={listStr pp.aw} p{i}.guns={pp.guns} p{i}.closes={listStr (pp.closes.map toString)} p{i}.errs={listStr pp.errs}" ++ real
